@@ -24,7 +24,7 @@ from ..symx import E, SB, SI, lift
 ID = "C06"
 LEVEL = "model_checking"
 
-DRIVERS = ("Canonical", "HamiltonianCanonical", "Isobaric", "Isotension", "GrandCanonical", "GrandCanonical+composites", "ForceBias", "AdaptiveForceBias")
+DRIVERS = ("Canonical", "Canonical+operations", "HamiltonianCanonical", "Isobaric", "Isotension", "GrandCanonical", "GrandCanonical+composites", "ForceBias", "AdaptiveForceBias")
 
 
 # ------------------------------------------------------------------ stubs for numpy's bit generator / generator
@@ -94,9 +94,32 @@ class Foreign:
         except (AttributeError, TypeError):
             pass
 
+    def _wrap_ctor(self, owner, name):
+        """Generator / bit-generator constructors: flagged when built UNSEEDED from quansino source."""
+        orig = getattr(owner, name, None)
+        if orig is None:
+            return
+        mon = self
+
+        def wrapper(*a, **k):
+            f = sys._getframe(1)
+            seed = a[0] if a else k.get("seed", k.get("entropy"))
+            if f.f_code.co_filename.startswith(mon.src) and seed is None:
+                mon.hits.append(f"unseeded {getattr(owner, '__name__', owner)}.{name}() built in {f.f_code.co_filename[len(mon.src):]}:{f.f_lineno}")
+            return orig(*a, **k)
+
+        try:
+            setattr(owner, name, wrapper)
+            self.saved.append((owner, name, orig))
+        except (AttributeError, TypeError):
+            pass
+
     def install(self):
-        for n in ("random", "rand", "randn", "uniform", "normal", "choice", "randint", "random_sample", "standard_normal", "shuffle", "permutation", "seed", "default_rng"):
+        # (classes are left alone: numpy uses them in isinstance tests; unseeded PCG64()/Generator built
+        # from quansino's own module globals are caught by the recording stubs of the seed scenario)
+        for n in ("random", "rand", "randn", "uniform", "normal", "choice", "randint", "random_sample", "standard_normal", "shuffle", "permutation", "seed", "bytes", "integers"):
             self._wrap(np.random, n)
+        self._wrap_ctor(np.random, "default_rng")
         for n in ("random", "uniform", "gauss", "choice", "randint", "randrange", "shuffle", "sample", "normalvariate", "seed", "getrandbits"):
             self._wrap(_pyrandom, n)
         for n in ("time", "time_ns", "perf_counter", "monotonic"):
@@ -171,7 +194,22 @@ def _build(V, driver, seed):
     from quansino.mc.isobaric import Isobaric
     from quansino.mc.isotension import Isotension
 
-    if driver == "Canonical":
+    if driver == "Canonical+operations":
+        # every shipped displacement operation in one table
+        from quansino.mc.criteria import CanonicalCriteria
+        from quansino.operations.displacement import Ball, Box, Rotation, Sphere, Translation, TranslationRotation
+
+        from . import c10
+
+        if V.mode == "sym":
+            shims.SymAtoms.euler_rotate = c10._sym_euler_rotate
+        sim = Canonical(atoms, temperature=300.0, max_cycles=1, seed=seed)
+        sim.add_move(DisplacementMove(lab, Box(0.1) + Sphere(0.1)), name="box+sphere")
+        sim.add_move(DisplacementMove(lab, Ball(0.2)), name="ball")
+        sim.add_move(DisplacementMove(np.zeros(n, dtype=int), Rotation()), name="rotation")
+        sim.add_move(DisplacementMove(np.zeros(n, dtype=int), TranslationRotation()), name="translation-rotation")
+        sim.add_move(DisplacementMove(lab, Translation()), name="translation")
+    elif driver == "Canonical":
         sim = Canonical(atoms, temperature=300.0, max_cycles=1, seed=seed, default_displacement_move=DisplacementMove(lab))
     elif driver == "HamiltonianCanonical":
         sim = HamiltonianCanonical(atoms, temperature=300.0, max_cycles=1, seed=seed)
